@@ -1,4 +1,5 @@
 import Corro.Model.Pack
+import Corro.Model.Codec
 import Driver.Util
 /-!
 Line protocol driver for C09.
@@ -11,6 +12,28 @@ Byte strings: lower-case hex, `-` = empty.
   pack <vals>       → `ok <hex>` | `err abort`
   ext_pack <vals>   → `ok <hex>`            (the extension's `crsql_pack_columns`; model = `pack`)
   unpack <hex>      → `ok <vals>` | `err abort` | `err misuse`
+
+Wire values are terms `atom` or `name(term,…)`; atoms are `[a-z0-9-]+`:
+  u64 / i64: decimal · ActorId / site id: 32 hex digits · range: `lo-hi` · option: `none` | `some(x)` ·
+  SqliteValue: as above · text: `t<hex>` · bytes: `b<hex>` · list: `l(x,…)` · map: `m(kv(k,v),…)`
+  change     c(t<table>,b<pk>,t<cid>,<value>,<col_version>,<db_version>,<seq>,<site>,<cl>)
+  changeset  empty(<range>,<opt ts>) | full(<version>,l(<change>…),<range>,<last_seq>,<ts>) |
+             emptyset(l(<range>…),<ts>)
+  changev1   cv(<actor>,<changeset>)
+  need       full(<range>) | partial(<version>,l(<range>…)) | empty(<opt ts>)
+  state      state(<actor>,m(kv(<actor>,<head>)…),m(kv(<actor>,l(<range>…))…),
+                   m(kv(<actor>,m(kv(<version>,l(<range>…))…))…),<opt ts>)
+  uni        uni(<changev1>,<cluster>)
+  bi         bi(<actor>,trace(<opt t..>,<opt t..>),<cluster>)
+  msg        mstate(<state>) | mchangeset(<changev1>) | mclock(<ts>) | mreject(<0|1>) |
+             mrequest(l(kv(<actor>,l(<need>…))…))
+Types: value ts actor cluster dbv seq change changeset changev1 need state uni bi msg.
+
+  enc <type> <term>   → `ok <hex>`   (maps with at most one entry: HashMap order is not deterministic)
+  dec <type> <hex>    → `ok <canonical term> <bytes consumed>` | `err`
+  rt  <type> <term>   → `ok <canonical term>`   (decode (encode v); maps sorted by key, last
+                                                  duplicate wins, as `HashMap::insert` does)
+  minbytes            → the `minimum_bytes_needed()` constants the reservation guards use
 -/
 namespace Driver.C09
 open Corro.Pack
@@ -93,9 +116,293 @@ def run (toks : List String) : Option String :=
     | .error e => pure (showUnpackErr e)
   | _ => none
 
+/-! ### wire values -/
+open Corro.Codec
+
+inductive Tree where
+  | node (tag : String) (kids : List Tree)
+
+def isAtomChar (c : Char) : Bool := ('a' ≤ c && c ≤ 'z') || ('0' ≤ c && c ≤ '9') || c = '-'
+
+mutual
+partial def pTree (cs : List Char) : Option (Tree × List Char) :=
+  let name := cs.takeWhile isAtomChar
+  let rest := cs.dropWhile isAtomChar
+  if name.isEmpty then none else
+  match rest with
+  | '(' :: ')' :: r => some (.node (String.ofList name) [], r)
+  | '(' :: r => do
+    let (kids, r') ← pKids r []
+    pure (.node (String.ofList name) kids.reverse, r')
+  | _ => some (.node (String.ofList name) [], rest)
+partial def pKids (cs : List Char) (acc : List Tree) : Option (List Tree × List Char) := do
+  let (t, r) ← pTree cs
+  match r with
+  | ',' :: r' => pKids r' (t :: acc)
+  | ')' :: r' => pure (t :: acc, r')
+  | _ => none
+end
+
+def parseTree (s : String) : Option Tree :=
+  match pTree s.toList with
+  | some (t, []) => some t
+  | _ => none
+
+def tNat : Tree → Option Nat
+  | .node a [] => a.toNat?
+  | _ => none
+
+def tU (bound : Nat) (t : Tree) : Option Nat := do
+  let n ← tNat t
+  if n < bound then some n else none
+
+def tU64 := tU 18446744073709551616
+
+def tI64 : Tree → Option Int
+  | .node a [] => do
+    let v ← a.toInt?
+    if -9223372036854775808 ≤ v ∧ v < 9223372036854775808 then some v else none
+  | _ => none
+
+def tHex (n : Nat) : Tree → Option Bytes
+  | .node a [] => do
+    let b ← hexChars? a.toList
+    if b.length = n then some b else none
+  | _ => none
+
+def tActor := tHex 16
+
+def tRange : Tree → Option Range
+  | .node a [] =>
+    match a.splitOn "-" with
+    | [x, y] => do
+      let lo ← x.toNat?; let hi ← y.toNat?
+      if lo < 18446744073709551616 ∧ hi < 18446744073709551616 then some (lo, hi) else none
+    | _ => none
+  | _ => none
+
+def tOpt (f : Tree → Option α) : Tree → Option (Option α)
+  | .node "none" [] => some none
+  | .node "some" [x] => (f x).map some
+  | _ => none
+
+def tList (f : Tree → Option α) : Tree → Option (List α)
+  | .node "l" kids => kids.mapM f
+  | _ => none
+
+def tMap {κ α : Type} (fk : Tree → Option κ) (fv : Tree → Option α) : Tree → Option (List (κ × α))
+  | .node "m" kids => kids.mapM fun
+    | .node "kv" [k, v] => do let k ← fk k; let v ← fv v; pure (k, v)
+    | _ => none
+  | _ => none
+
+def tVal : Tree → Option Val
+  | .node a [] => parseVal a
+  | _ => none
+
+def tText : Tree → Option Bytes
+  | .node a [] =>
+    match a.toList with
+    | 't' :: r => do
+      let b ← hexChars? r
+      if validUtf8 b then some b else none
+    | _ => none
+  | _ => none
+
+def tBytes : Tree → Option Bytes
+  | .node a [] =>
+    match a.toList with
+    | 'b' :: r => hexChars? r
+    | _ => none
+  | _ => none
+
+def tChange : Tree → Option Change
+  | .node "c" [table, pk, cid, val, cv, dbv, seq, site, cl] => do
+    pure ⟨← tText table, ← tBytes pk, ← tText cid, ← tVal val, ← tI64 cv, ← tU64 dbv, ← tU64 seq,
+      ← tHex 16 site, ← tI64 cl⟩
+  | _ => none
+
+def tChangeset : Tree → Option Changeset
+  | .node "empty" [r, ts] => do pure (.empty (← tRange r) (← tOpt tU64 ts))
+  | .node "full" [v, cs, r, last, ts] => do
+    pure (.full (← tU64 v) (← tList tChange cs) (← tRange r) (← tU64 last) (← tU64 ts))
+  | .node "emptyset" [rs, ts] => do pure (.emptySet (← tList tRange rs) (← tU64 ts))
+  | _ => none
+
+def tChangeV1 : Tree → Option ChangeV1
+  | .node "cv" [a, c] => do pure ⟨← tActor a, ← tChangeset c⟩
+  | _ => none
+
+def tNeed : Tree → Option SyncNeed
+  | .node "full" [r] => do pure (.full (← tRange r))
+  | .node "partial" [v, rs] => do pure (.part (← tU64 v) (← tList tRange rs))
+  | .node "empty" [ts] => do pure (.empty (← tOpt tU64 ts))
+  | _ => none
+
+def tState : Tree → Option SyncState
+  | .node "state" [a, heads, need, pn, ts] => do
+    pure ⟨← tActor a, ← tMap tActor tU64 heads, ← tMap tActor (tList tRange) need,
+      ← tMap tActor (tMap tU64 (tList tRange)) pn, ← tOpt tU64 ts⟩
+  | _ => none
+
+def tUni : Tree → Option UniPayload
+  | .node "uni" [c, cl] => do pure ⟨← tChangeV1 c, ← tU 65536 cl⟩
+  | _ => none
+
+def tTrace : Tree → Option TraceCtx
+  | .node "trace" [a, b] => do pure ⟨← tOpt tText a, ← tOpt tText b⟩
+  | _ => none
+
+def tBi : Tree → Option BiPayload
+  | .node "bi" [a, t, cl] => do pure ⟨← tActor a, ← tTrace t, ← tU 65536 cl⟩
+  | _ => none
+
+def tMsg : Tree → Option SyncMsg
+  | .node "mstate" [s] => do pure (.state (← tState s))
+  | .node "mchangeset" [c] => do pure (.changeset (← tChangeV1 c))
+  | .node "mclock" [ts] => do pure (.clock (← tU64 ts))
+  | .node "mreject" [r] => do pure (.rejection (← tU 2 r))
+  | .node "mrequest" [es] => do
+    let es ← tList (fun
+      | .node "kv" [a, ns] => do let a ← tActor a; let ns ← tList tNeed ns; pure (a, ns)
+      | _ => none) es
+    pure (.request es)
+  | _ => none
+
+/-! printing (canonical: maps sorted by key, the last duplicate wins) -/
+
+def sArgs (xs : List String) : String := ",".intercalate xs
+def sNode (tag : String) (xs : List String) : String := tag ++ "(" ++ sArgs xs ++ ")"
+def sRange (r : Range) : String := s!"{r.1}-{r.2}"
+def sOpt (f : α → String) : Option α → String
+  | none => "none"
+  | some a => sNode "some" [f a]
+def sList (f : α → String) (xs : List α) : String := sNode "l" (xs.map f)
+def sNat (n : Nat) : String := toString n
+def sInt (v : Int) : String := toString v
+def sText (b : Bytes) : String := "t" ++ toHexRaw b
+def sBlob (b : Bytes) : String := "b" ++ toHexRaw b
+
+def bytesLt : Bytes → Bytes → Bool
+  | [], [] => false
+  | [], _ :: _ => true
+  | _ :: _, [] => false
+  | a :: as, b :: bs => if a.toNat < b.toNat then true else if b.toNat < a.toNat then false else bytesLt as bs
+
+/-- `HashMap` semantics of an association list: later entries replace earlier ones; sorted by key -/
+def canonMap (lt : κ → κ → Bool) (xs : List (κ × α)) : List (κ × α) :=
+  let ins (acc : List (κ × α)) (e : κ × α) : List (κ × α) :=
+    let rec go : List (κ × α) → List (κ × α)
+      | [] => [e]
+      | x :: r => if lt e.1 x.1 then e :: x :: r else if lt x.1 e.1 then x :: go r else e :: r
+    go acc
+  xs.foldl ins []
+
+def sMap (lt : κ → κ → Bool) (fk : κ → String) (fv : α → String) (xs : List (κ × α)) : String :=
+  sNode "m" ((canonMap lt xs).map fun e => sNode "kv" [fk e.1, fv e.2])
+
+def sChange (c : Change) : String :=
+  sNode "c" [sText c.table, sBlob c.pk, sText c.cid, showVal c.val, sInt c.colVersion, sNat c.dbVersion,
+    sNat c.seq, toHexRaw c.siteId, sInt c.cl]
+
+def sChangeset : Changeset → String
+  | .empty r ts => sNode "empty" [sRange r, sOpt sNat ts]
+  | .full v cs r last ts => sNode "full" [sNat v, sList sChange cs, sRange r, sNat last, sNat ts]
+  | .emptySet rs ts => sNode "emptyset" [sList sRange rs, sNat ts]
+
+def sChangeV1 (c : ChangeV1) : String := sNode "cv" [toHexRaw c.actorId, sChangeset c.changeset]
+
+def sNeed : SyncNeed → String
+  | .full r => sNode "full" [sRange r]
+  | .part v rs => sNode "partial" [sNat v, sList sRange rs]
+  | .empty ts => sNode "empty" [sOpt sNat ts]
+
+def natLt (a b : Nat) : Bool := a < b
+
+def sState (s : SyncState) : String :=
+  sNode "state" [toHexRaw s.actorId, sMap bytesLt toHexRaw sNat s.heads,
+    sMap bytesLt toHexRaw (sList sRange) s.need,
+    sMap bytesLt toHexRaw (sMap natLt sNat (sList sRange)) s.partialNeed, sOpt sNat s.lastClearedTs]
+
+def sUni (u : UniPayload) : String := sNode "uni" [sChangeV1 u.change, sNat u.clusterId]
+def sTrace (t : TraceCtx) : String := sNode "trace" [sOpt sText t.traceparent, sOpt sText t.tracestate]
+def sBi (b : BiPayload) : String := sNode "bi" [toHexRaw b.actorId, sTrace b.traceCtx, sNat b.clusterId]
+
+def sMsg : SyncMsg → String
+  | .state s => sNode "mstate" [sState s]
+  | .changeset c => sNode "mchangeset" [sChangeV1 c]
+  | .clock ts => sNode "mclock" [sNat ts]
+  | .rejection r => sNode "mreject" [sNat r]
+  | .request es => sNode "mrequest" [sList (fun e => sNode "kv" [toHexRaw e.1, sList sNeed e.2]) es]
+
+/-- maps with at most one entry at every level (what `enc` accepts) -/
+def detState (s : SyncState) : Bool :=
+  s.heads.length ≤ 1 && s.need.length ≤ 1 && s.partialNeed.length ≤ 1 &&
+    s.partialNeed.all (fun e => e.2.length ≤ 1)
+
+def detMsg : SyncMsg → Bool
+  | .state s => detState s
+  | _ => true
+
+/-- one wire type: parser, determinism check, encoder, decoder, printer -/
+structure Ty where
+  α : Type
+  parse : Tree → Option α
+  det : α → Bool
+  enc : α → Bytes
+  dec : Dec α
+  show_ : α → String
+
+def tyOf : String → Option Ty
+  | "value" => some ⟨Val, tVal, fun _ => true, encSqliteValue, sqliteValue, showVal⟩
+  | "ts" => some ⟨Nat, tU64, fun _ => true, encU64, u64, sNat⟩
+  | "dbv" => some ⟨Nat, tU64, fun _ => true, encU64, u64, sNat⟩
+  | "seq" => some ⟨Nat, tU64, fun _ => true, encU64, u64, sNat⟩
+  | "cluster" => some ⟨Nat, tU 65536, fun _ => true, encU16, u16, sNat⟩
+  | "actor" => some ⟨Bytes, tActor, fun _ => true, id, actor, toHexRaw⟩
+  | "change" => some ⟨Change, tChange, fun _ => true, encChange, change, sChange⟩
+  | "changeset" => some ⟨Changeset, tChangeset, fun _ => true, encChangeset, changeset, sChangeset⟩
+  | "changev1" => some ⟨ChangeV1, tChangeV1, fun _ => true, encChangeV1, changeV1, sChangeV1⟩
+  | "need" => some ⟨SyncNeed, tNeed, fun _ => true, encSyncNeed, syncNeed, sNeed⟩
+  | "state" => some ⟨SyncState, tState, detState, encSyncState, syncState, sState⟩
+  | "uni" => some ⟨UniPayload, tUni, fun _ => true, encUniPayload, uniPayload, sUni⟩
+  | "bi" => some ⟨BiPayload, tBi, fun _ => true, encBiPayload, biPayload, sBi⟩
+  | "msg" => some ⟨SyncMsg, tMsg, detMsg, encSyncMsg, syncMsg, sMsg⟩
+  | _ => none
+
+def runTy (T : Ty) (op arg : String) : Option String :=
+  match op with
+  | "enc" => do
+    let x ← T.parse (← parseTree arg)
+    if T.det x then pure ("ok " ++ toHex (T.enc x)) else none
+  | "dec" => do
+    let bs ← hex? arg
+    let o : Out T.α := T.dec bs
+    match o.val with
+    | .ok x => pure s!"ok {T.show_ x} {bs.length - o.rest.length}"
+    | .error _ => pure "err"
+  | "rt" => do
+    let x ← T.parse (← parseTree arg)
+    let o : Out T.α := T.dec (T.enc x)
+    match o.val with
+    | .ok y => pure ("ok " ++ T.show_ y)
+    | .error _ => pure "err"
+  | _ => none
+
+def runWire (toks : List String) : Option String :=
+  match toks with
+  | [op, ty, arg] =>
+    match tyOf ty with
+    | some T => runTy T op arg
+    | none => none
+  | ["minbytes"] =>
+    pure s!"ok change={changeMinBytes},need={syncNeedMinBytes},reqentry={requestEntryMinBytes}"
+  | _ => none
+
 abbrev State := Unit
 def init : State := ()
-def step (st : State) (toks : List String) : Option (State × String) := (run toks).map (st, ·)
+def step (st : State) (toks : List String) : Option (State × String) :=
+  ((run toks).orElse fun _ => runWire toks).map (st, ·)
 
 end Driver.C09
 def main : IO Unit := Driver.runLoop Driver.C09.init Driver.C09.step
